@@ -147,7 +147,7 @@ def run(ctx):
     # ---- code -> spec
     cases = []
     pats = list(PATTERNS)
-    for i in range(ctx.pick(1200, 100000)):
+    for i in range(ctx.pick(1200, 60000)):
         cases.append(gen_case(rng, pats[i % len(pats)], ctx.pick(6, 30)))
     events = drive.pmap(replay, [(c, i) for i, c in enumerate(cases)], hooks=False, chunksize=10)
     real_cases = [c for c in cases if len(c["all"]) >= 2][:ctx.pick(32, 1000)]
